@@ -29,6 +29,14 @@ CHECKS = {
    text="differential restart monitor on a complete in-process node: seeded sequences over all ClientRequest kinds through raft.client_write, compactions placed between writes (awaited) or running concurrently (raft core's own policy), SIGKILL at quiescent points behind a recovery barrier, restart from the same directory; dumps through the public actor queries (config GET/history/listing, namespaces, users table, MCP, persistent instances) must be equal and every raft sequence must continue at the expected id; interrupted-compaction scenario with a partial snapshot file under the next id",
    note="quiescent stop points only; instance timestamps/health and TTL caches excluded; differential oracle (no behavioural model)",
    technique="runtime differential monitoring (state dump before stop vs after restart) over seeded histories and restart/compaction placements"),
+ "C04": dict(level="fault_enumeration", design="DESIGN.md 3/C04",
+   text="crash-point enumeration: store-layer histories (appends, batches, truncations, metadata saves, last-applied saves, snapshot build + pointer, reopen) run on the real FileStore actor chain under an LD_PRELOAD interposer that journals every write/set_len/unlink/create/rename together with the session's SUBMIT/ACK markers in one order; for EVERY journal prefix the directory image is materialised and opened by the real recovery code in a fresh process; oracle: recovery succeeds, log contiguous, only submitted entries, acknowledged entries present, last-applied reproducible",
+   note="crash model of the property (process death, atomic write calls, program order); exhaustive per explored history; torn writes / fsync semantics out of scope",
+   technique="fault enumeration over a syscall-level write journal + recovery by the real code + marker-derived oracle"),
+ "C05": dict(level="fault_enumeration", design="DESIGN.md 3/C05",
+   text="same crash-image rig on histories biased to save_hard_state / SaveMember / AddNodeAddr interleaved with the other writers of the index file and reopen; at every journal prefix the recovered term/vote must be the last acknowledged (or a later submitted) value, membership and addresses the last acknowledged value with at most the one write the index actor may still have in flight",
+   note="term/vote strict; membership/address acknowledgements are 'scheduled' acknowledgements in the store's API (one-write lag allowed); final images double as the quiescent reopen comparison",
+   technique="fault enumeration over a syscall-level write journal + recovery by the real code + marker-derived oracle"),
  "C07": dict(level="exploration", design="DESIGN.md 3/C07",
    text="three-way differential monitor: one seeded committed request sequence (all state-machine ClientRequest kinds) is applied through the leader path (append + apply_entry_to_state_machine per entry), the follower path (replicate_to_log + replicate_to_state_machine in random batch splits) and the start-up replay path (restart of the follower's directory) of raft-idle in-process nodes; the three dumps taken through the public actor queries must be equal",
    note="NodeAddr/Members left out (C05); timestamps/health excluded; trusts mailbox-order barriers (one query per component actor) before dumping",
